@@ -14,7 +14,7 @@ import (
 )
 
 func init() {
-	register(&Prop{ID: "C27", Module: "V.C27.Check", Gen: c27Gen, Quick: 3000, Thorough: 24000, Shard: 215})
+	register(&Prop{ID: "C27", Module: "V.C27.Check", Gen: c27Gen, Quick: 3000, Thorough: 60000, Shard: 215})
 }
 
 // c27F prints a finite float64 as the Coq pair (mantissa, exponent)%Z with value mantissa * 2^exponent.
